@@ -14,7 +14,9 @@ EXPLANATION = (
     "compact variable into a constant/extended entry is an error path and constants are inserted only "
     "after the clash check.  (R5) the current scope is consulted before the global scope in every "
     "two-level lookup (local shadows global); (R6) and the global scope is consulted exactly when that "
-    "same lookup missed locally - no other predicate decides the fallback.")
+    "same lookup missed locally - no other predicate decides the fallback.  (R7) extended vs compact: "
+    "both VarType::is_extended implementations (DIM types, parameter types) answer the stated table on "
+    "every variant, arrays following their element type.")
 NOT_DECIDED = ["the resolution outcome for arbitrary combinations of declarations (run of the converter)"]
 
 NAMES = "Names"
@@ -273,6 +275,58 @@ def r6_fallback_keyed_on_same_lookup(ctx, rule="C13.R6"):
     ctx.require(rule, 4)
 
 
+def r7_extended_table(ctx, rule="C13.R7"):
+    """Whether a declaration is *extended* (`AS type`: the bare name is reserved, every suffix is
+    rejected) or *compact* decides which name table it goes into.  VarType::is_extended is
+    implemented separately for DIM types and for parameter types; both are interpreted on every
+    variant (arrays over every element variant) and compared with the one table that the property
+    states: AS type / user type / STRING * n are extended, a sigil or nothing is compact, an array
+    is what its element type is."""
+    from .. import tagflow as tf
+    prog = ctx.prog
+    eng = tf.Engine(prog)
+    eng.trunc_depth = 8
+    STYLE = "rusty_parser::core::built_in_style::BuiltInStyle"
+    n = 0
+    for adt_id in ("rusty_parser::core::dim_type::DimType", "rusty_parser::core::param_name::ParamType"):
+        short = adt_id.split("::")[-1]
+        fs = [f for f in prog.fns.values() if f.name == "is_extended" and f.impl
+              and f.impl["self_ty"].endswith(short) and "VarType" in (f.impl.get("trait_ref") or "")]
+        if len(fs) != 1:
+            raise CheckError("anchor <%s as VarType>::is_extended" % short)
+        fn = fs[0]
+        scalars = []
+        for v in prog.variants(adt_id):
+            if v == "Array":
+                continue
+            if v == "BuiltIn":
+                for st, want in (("Compact", "0"), ("Extended", "1")):
+                    scalars.append(("BuiltIn/%s" % st, eng.make(adt_id, "BuiltIn", {1: tf.Tag(STYLE, st)}), want))
+            else:
+                scalars.append((v, eng.make(adt_id, v), "0" if v == "Bare" else "1"))
+        arr_field = [i for i, f in enumerate(eng.variant_named(adt_id, "Array")["fields"])
+                     if f.get("ty", "").startswith("std::boxed::Box<")]
+        if len(arr_field) != 1:
+            raise CheckError("%s::Array: element type field not found" % short)
+        cases = list(scalars) + [("Array of " + nm, eng.make(adt_id, "Array", {arr_field[0]: val}), want)
+                                 for nm, val, want in scalars]
+        for nm, val, want in cases:
+            n += 1
+            rs = sorted({tf.shape(x) for x in eng.summary(fn, (tf.Ref(val),))})
+            key = "%s:%s:%s" % (rule, short, nm.replace(" ", "-"))
+            if rs not in (["0"], ["1"]):
+                ctx.unknown(rule, key, fn.loc, "abstract result %s" % rs)
+                continue
+            ctx.decide(rs == [want], rule, key, fn.loc, "is_extended=%s" % want,
+                       "%s::is_extended is %s for `%s` (want %s): the declaration is filed in the %s name "
+                       "table, so its bare name %s" % (
+                           short, rs[0], nm, want, "compact" if rs[0] == "0" else "extended",
+                           "resolves by the DEFtype of its first letter instead of the declared type and "
+                           "other suffixes are accepted" if rs[0] == "0" else "is reserved although a sigil was given"))
+    ctx.analysed_units(rule, cells=n)
+    ctx.require(rule, 16)
+
+
 def run(ctx):
     common.install(ctx)
     from . import c09
@@ -283,3 +337,4 @@ def run(ctx):
     r4_one_kind_per_name(ctx)
     r5_local_before_global(ctx)
     r6_fallback_keyed_on_same_lookup(ctx)
+    r7_extended_table(ctx)
